@@ -187,6 +187,7 @@ type Case struct {
 
 	reads, writes, scenarios int
 	flusherCalls             int
+	notReached               int
 	fileLen                  int
 }
 
@@ -332,16 +333,28 @@ func checkCase(c *Case) error {
 				continue // keep the enumeration bounded; counted as class
 			}
 		}
-		for k := 1; k <= calls; k++ {
+		// a few indices beyond the counted calls: the count varies slightly
+		// from run to run for encrypted documents (see below)
+		for k := 1; k <= calls+3; k++ {
 			for _, shape := range []string{"once", "from"} {
 				k, shape := k, shape
+				fired := false
 				sink := sk.mk(func(call int, kind string) error {
 					if call == k || (shape == "from" && call > k) {
+						fired = true
 						return errInjected
 					}
 					return nil
 				})
 				r := p.Run(sink)
+				if !fired {
+					// The number of sink calls is not a function of the
+					// program alone: random file IDs, IVs and the escapes of
+					// encrypted strings change how the output is chunked.
+					// The statement speaks about failures which happened.
+					c.notReached++
+					continue
+				}
 				c.scenarios++
 				if r.WriterErr == nil {
 					return fmt.Errorf("write fault k=%d/%d shape=%s (%s sink, seekable=%v): no Writer call up to Close reported the failure", k, calls, shape, sk.name, p.Seekable)
@@ -371,6 +384,9 @@ var prop = &vt.Prop[Case]{
 			cls = append(cls, "sink:caller-buffered-with-Flush")
 		} else if c.flusherCalls > 1500 {
 			cls = append(cls, "sink:flusher-skipped-too-many-calls")
+		}
+		if c.notReached > 3*2*2 {
+			cls = append(cls, "write-fault-index-not-reached(call count varies between runs)")
 		}
 		return nt, cls
 	},
